@@ -71,6 +71,18 @@ Proof.
   intros H. specialize (H 20 wit_coll_defs wit_coll_inputs eq_refl eq_refl). vm_compute in H. discriminate.
 Qed.
 
+(* f = func(N){N+1}  f(1)  N = 5  f(1)   -> 2 again; without the cache the second call fails (a parameter named like an
+   existing constant is an "attempt to change constant"): the lookup in the cache comes before the parameter binding, and
+   that the constant did not exist at the first call is not part of the key. *)
+Definition wit_cpar_defs : list fdef :=
+  [ mkDef [107]%N None [[78]%N] (EBin OAdd (EVar [78]%N) (ELit (VInt 1))) ].
+Definition wit_cpar_inputs : list expr :=
+  [ EAssign [102]%N (EFun 0); ECall (EVar [102]%N) [ELit (VInt 1)]; EAssign [78]%N (ELit (VInt 5)); ECall (EVar [102]%N) [ELit (VInt 1)] ].
+Theorem C04_refuted_constant_parameter_then_global : ~ cache_unobservable_nolog.
+Proof.
+  intros H. specialize (H 20 wit_cpar_defs wit_cpar_inputs eq_refl eq_refl). vm_compute in H. discriminate.
+Qed.
+
 (* ---------------------------------------------------------------- what IS proved, for all histories *)
 
 (* Every cache store happens only when the call's miss counter did not move, the result is not an error (nor
@@ -182,6 +194,7 @@ Print Assumptions C04_refuted_redefined_callee.
 Print Assumptions C04_refuted_redefined_callee_full.
 Print Assumptions C04_refuted_log_not_replayed.
 Print Assumptions C04_refuted_printed_text_collision.
+Print Assumptions C04_refuted_constant_parameter_then_global.
 Print Assumptions cache_store_discipline.
 Print Assumptions cache_store_events_complete.
 Print Assumptions cache_hit_replays_exactly.
